@@ -167,7 +167,45 @@ def post(s, a, rt):
                 fails.append(f"C12: listener {c.provider} attached to one instance was invoked by another: {l}")
                 break
     del rt.lines[start:]
+    fails += copies_alongside(s, rt)
     return fails
+
+
+def copies_alongside(s, rt):
+    """isolation across copies: a shallow copy of the machine gets a listener of its own; a deep copy of the
+    original taken afterwards and driven through the same events never invokes it"""
+    import copy
+    import warnings
+    import world as W
+    first, old_model = rt.sm, rt.model
+    start = len(rt.lines)
+    del W.SPY_LOG[:]
+    try:
+        with warnings.catch_warnings():
+            warnings.simplefilter("ignore")
+            twin = copy.copy(first)
+            twin.add_listener(W.Spy())
+            other = copy.deepcopy(first)
+            rt.sm, rt.model = other, other.model
+            other.allow_event_without_transition = True
+            for op in s.ops:
+                if op[0] == "send":
+                    tid = rt.next_tid
+                    rt.next_tid += 1
+                    try:
+                        other.send(eng.EVENTS[op[1]] if op[1] < len(eng.EVENTS) else "unk", _tid=tid)
+                    except Exception:
+                        pass
+    except BaseException as e:
+        if isinstance(e, (KeyboardInterrupt, SystemExit)):
+            raise
+        return []          # the copy itself is C17's subject
+    finally:
+        rt.sm, rt.model = first, old_model
+        del rt.lines[start:]
+    if W.SPY_LOG:
+        return [f"C12: a listener attached to a shallow copy only was invoked by a later deep copy of the original: {W.SPY_LOG[0]}"]
+    return []
 
 
 # ---- recorded findings ------------------------------------------------------------------------
